@@ -79,9 +79,11 @@ def histories(draw, first=None):
             pos = draw(st.integers(0, len(ops)))
         if draw(st.integers(0, 2)) == 0:
             bad['set'] = 'SET-ONLY-THE-REJECTED-CALL-USES'     # the rejected call is the only one to touch this set
+        elif bad.get('set') is None and draw(st.integers(0, 3)) == 0:
+            bad['set'] = ''                                     # the unnamed set, spelled as an empty name
         if nb == 0 and first in ('wrong-type-value:origin', 'name-type:origin') and draw(st.booleans()):
             pos = 0                 # the very first call of the history (see the arrangement of the origin sets below)
-            bad['set'] = 'S1'
+            bad['set'] = draw(st.sampled_from(['S1', 'S1', '']))     # ('': the rejected call names the unnamed set)
             bad['front'] = True
         spec['lfs'][0]['ops'] = ops = insert_op(ops, pos, bad)
     ops = spec['lfs'][0]['ops']
@@ -97,8 +99,13 @@ def histories(draw, first=None):
                 extra['attrs'] = {k: v for k, v in extra['attrs'].items() if k in ('file_set_number', 'creation_time')}
                 ops.append(extra)
                 valid.append(len(ops) - 1)
-            ops[valid[0]].pop('set', None)
-            ops[valid[1]]['set'] = 'S1'
+            if ops[0].get('set') == '':
+                # the first valid origin goes to a named set, the second to the unnamed one the rejected call had named
+                ops[valid[0]]['set'] = 'S1'
+                ops[valid[1]].pop('set', None)
+            else:
+                ops[valid[0]].pop('set', None)
+                ops[valid[1]]['set'] = 'S1'
             spec['rejected_origin_first_in_named_set'] = True
     return {'kind': 'reject-history', 'spec': spec}
 
